@@ -476,6 +476,14 @@ class Sim:
             inl = self.inline_helper(n, st)
             if inl is not None:
                 return inl
+            # something (a local lambda `shift(components.host_end)`, a helper) receives an OFFSET by non-const reference: it may
+            # write it in a way this simulation does not see -- the path is not decided, rather than read as "offset untouched"
+            for a_, m_ in zip(n.get("args", []), n.get("pm", []) or []):
+                a0_ = X.strip(a_)
+                if m_ in ("ref", "lref", "mut", "out") or (m_ not in ("val", "cref", "rref") and m_):
+                    pth_ = X.path(a0_) if isinstance(a0_, dict) else None
+                    if pth_ and pth_.startswith("this.components."):
+                        raise Abandon("%s receives %s by reference" % (nm, pth_))
             if n.get("method") and (n.get("cls") or "").startswith("ada::url_aggregator") and not n.get("const_method") \
                     and (n.get("recv") is None or X.path(n["recv"]) in ("this", None)):
                 st.trace.append("call %s (accounted on its own)" % nm)
